@@ -522,7 +522,7 @@ fn run_frames(script: &Script, tape: &mut Tape, keep: bool) -> RunOut {
         _ => out.count("cl_truthful", 1),
     }
     let rel = if total > n { "over" } else if total == n { "at" } else if total + 1 == n { "just-under" } else { "under" };
-    out.states.push(format!("B|{}|{}|{}|{}", rel, sig, short(&outcome), script.frames.len().min(3)));
+    out.states.push(format!("B|{}|{}|{}|frames{}", rel, sig, short_kind(&outcome), script.frames.len().min(3)));
     out.nontrivial = script.frames.len() > 1 || !matches!(script.cl, Cl::Truthful);
     // fold the frame shape into the schedule hash so that distinct fragmentations count as distinct
     out.log.sched(format_args!("{:?}|{:?}|{}|{}", script.frames, script.cl, script.limit, script.body_len));
@@ -538,6 +538,365 @@ fn short(o: &Outcome) -> String {
     }
 }
 
+
+// ---------------------------------------------------------------------------------------------
+// mode A: a real hyper HTTP/1 connection over a simulated socket
+
+#[derive(Default)]
+struct WireRec {
+    service_called: bool,
+    seen_cl: Option<String>,
+    seen_te: bool,
+    outcome: Option<Outcome>,
+    client_wrote: usize,
+    client_done: bool,
+    fault_fired: Option<&'static str>,
+}
+
+thread_local! {
+    static WIRE: std::cell::RefCell<WireRec> = std::cell::RefCell::new(WireRec::default());
+    static WIRE_LIMIT: std::cell::Cell<u64> = const { std::cell::Cell::new(0) };
+}
+
+/// The request as bytes, plus the decoded body the framing announces.
+fn wire_message(script: &Script, data: &[u8]) -> (Vec<u8>, Vec<u8>, bool) {
+    let mut m = Vec::new();
+    m.extend_from_slice(b"POST /upload HTTP/1.1\r\nhost: sim\r\n");
+    match script.payload {
+        Payload::Json => m.extend_from_slice(b"content-type: application/json\r\n"),
+        Payload::Form => m.extend_from_slice(b"content-type: application/x-www-form-urlencoded\r\n"),
+        Payload::Random => {}
+    }
+    let mut valid = true;
+    match &script.framing {
+        Framing::Length => {
+            let announced: Vec<u8>;
+            match cl_header(script, data.len()) {
+                None => {
+                    announced = Vec::new();
+                }
+                Some(v) => {
+                    m.extend_from_slice(format!("content-length: {v}\r\n").as_bytes());
+                    // optional whitespace around a field value is not part of the value
+                    let v = v.trim_matches(|c| c == ' ' || c == '\t').to_string();
+                    match v.parse::<u64>() {
+                        Ok(n) if v.bytes().all(|b| b.is_ascii_digit()) => {
+                            announced = data[..(n.min(data.len() as u64) as usize)].to_vec();
+                            if n as usize > data.len() {
+                                // more announced than will ever be sent: the message is incomplete
+                                valid = false;
+                            }
+                        }
+                        _ => {
+                            valid = false;
+                            announced = Vec::new();
+                        }
+                    }
+                }
+            }
+            m.extend_from_slice(b"\r\n");
+            m.extend_from_slice(data);
+            (m, announced, valid)
+        }
+        Framing::Chunked(sizes) => {
+            if let Some(v) = cl_header(script, data.len()) {
+                // both headers: Transfer-Encoding wins; still a well-formed message only if the
+                // value is numeric (hyper rejects the rest)
+                let v = v.trim_matches(|c| c == ' ' || c == '\t').to_string();
+                if !v.bytes().all(|b| b.is_ascii_digit()) || v.is_empty() || v.parse::<u64>().is_err() {
+                    valid = false;
+                }
+                m.extend_from_slice(format!("content-length: {v}\r\n").as_bytes());
+            }
+            m.extend_from_slice(b"transfer-encoding: chunked\r\n\r\n");
+            let mut pos = 0;
+            for (i, k) in sizes.iter().enumerate() {
+                let k = (*k).min(data.len() - pos);
+                if k == 0 {
+                    continue;
+                }
+                if i % 3 == 1 {
+                    m.extend_from_slice(format!("{k:x};ext=1\r\n").as_bytes());
+                } else {
+                    m.extend_from_slice(format!("{k:X}\r\n").as_bytes());
+                }
+                m.extend_from_slice(&data[pos..pos + k]);
+                m.extend_from_slice(b"\r\n");
+                pos += k;
+            }
+            if pos < data.len() {
+                m.extend_from_slice(format!("{:x}\r\n", data.len() - pos).as_bytes());
+                m.extend_from_slice(&data[pos..]);
+                m.extend_from_slice(b"\r\n");
+            }
+            if sizes.len() % 2 == 1 {
+                m.extend_from_slice(b"0\r\nx-trailer: 1\r\n\r\n");
+            } else {
+                m.extend_from_slice(b"0\r\n\r\n");
+            }
+            (m, data.to_vec(), valid)
+        }
+    }
+}
+
+async fn wire_service(req: hyper::Request<hyper::body::Incoming>) -> Result<hyper::Response<http_body_util::Full<Bytes>>, std::convert::Infallible> {
+    use pavex::request::body::{BodySizeLimit, RawIncomingBody};
+    let (parts, body) = req.into_parts();
+    let head: RequestHead = parts.into();
+    WIRE.with(|w| {
+        let mut w = w.borrow_mut();
+        w.service_called = true;
+        w.seen_cl = head.headers.get(http::header::CONTENT_LENGTH).map(|v| String::from_utf8_lossy(v.as_bytes()).to_string());
+        w.seen_te = head.headers.contains_key(http::header::TRANSFER_ENCODING);
+    });
+    crate::slog!("service called (content-length header: {:?})", head.headers.get(http::header::CONTENT_LENGTH));
+    let limit = BodySizeLimit::Enabled { max_size: ByteUnit::Byte(WIRE_LIMIT.with(|l| l.get())) };
+    let r = BufferedBody::extract(&head, RawIncomingBody::from(body), limit).await;
+    let o = classify(r);
+    crate::slog!("extraction finished: {}", short(&o));
+    let status = if matches!(o, Outcome::Ok(_)) { 200 } else { 413 };
+    WIRE.with(|w| w.borrow_mut().outcome = Some(o));
+    Ok(hyper::Response::builder().status(status).body(http_body_util::Full::new(Bytes::from_static(b"done"))).unwrap())
+}
+
+fn run_wire(script: &Script, tape: &mut Tape, keep: bool) -> RunOut {
+    use crate::{net, sched};
+    use tokio::io::{AsyncReadExt, AsyncWriteExt};
+    let data = make_body(script);
+    let (msg, announced, valid) = wire_message(script, &data);
+    WIRE.with(|w| *w.borrow_mut() = WireRec::default());
+    WIRE_LIMIT.with(|l| l.set(script.limit));
+    crate::seams::set_clock_ns(crate::seams::EPOCH_S * 1_000_000_000, 0);
+    crate::seams::set_entropy(Some(14));
+    let my_tape = std::mem::replace(tape, Tape::replay(vec![]));
+    sched::install(my_tape, EventLog::new(keep), 400_000);
+    let rt = sched::runtime();
+    let frags = script.fragments.clone();
+    let fault = script.fault.clone();
+    let cap = script.pipe_capacity.max(1);
+    let total = msg.len();
+    let msg_len = msg.len();
+    rt.block_on(async move {
+        sched::start_clock();
+        let (mut cl, sv, _pipes) = net::connection(0, cap, 65_536, false);
+        let server = sched::spawn("server", true, move || {
+            Box::pin(async move {
+                let io = hyper_util::rt::TokioIo::new(sv);
+                let conn = hyper::server::conn::http1::Builder::new().serve_connection(io, hyper::service::service_fn(wire_service));
+                let r = conn.await;
+                crate::slog!("connection finished: {}", if r.is_ok() { "ok".to_string() } else { format!("{:?}", r.err().map(|e| e.to_string())) });
+            })
+        });
+        let client = sched::spawn("client", false, move || {
+            Box::pin(async move {
+                let mut pos = 0usize;
+                let stop_at: Option<usize> = match &fault {
+                    WireFault::None => None,
+                    WireFault::HalfCloseAfter(n) | WireFault::StallAfter(n) | WireFault::ResetAfter(n) => Some((*n).min(total)),
+                };
+                let mut fi = 0usize;
+                'w: while pos < total {
+                    let (len, delay_ms) = frags.get(fi).copied().unwrap_or((total, 0));
+                    fi += 1;
+                    if delay_ms > 0 {
+                        tokio::time::sleep(std::time::Duration::from_millis(delay_ms)).await;
+                    }
+                    let mut end = (pos + len.max(1)).min(total);
+                    if let Some(s) = stop_at {
+                        end = end.min(s.max(pos));
+                    }
+                    if end > pos {
+                        if cl.write_all(&msg[pos..end]).await.is_err() {
+                            break 'w;
+                        }
+                        pos = end;
+                        WIRE.with(|w| w.borrow_mut().client_wrote = pos);
+                    }
+                    if Some(pos) == stop_at && pos < total {
+                        match &fault {
+                            WireFault::HalfCloseAfter(_) => {
+                                let _ = cl.shutdown().await;
+                                WIRE.with(|w| w.borrow_mut().fault_fired = Some("fault_half_close"));
+                            }
+                            WireFault::StallAfter(_) => {
+                                WIRE.with(|w| w.borrow_mut().fault_fired = Some("fault_stall"));
+                                tokio::time::sleep(std::time::Duration::from_secs(600)).await;
+                                return;
+                            }
+                            WireFault::ResetAfter(_) => {
+                                WIRE.with(|w| w.borrow_mut().fault_fired = Some("fault_reset"));
+                                cl.reset();
+                                return;
+                            }
+                            WireFault::None => {}
+                        }
+                        break 'w;
+                    }
+                }
+                WIRE.with(|w| w.borrow_mut().client_done = pos >= total);
+                // read whatever the server answers, until it closes or we lose patience
+                let mut buf = [0u8; 256];
+                let _ = tokio::time::timeout(std::time::Duration::from_secs(300), async {
+                    let mut seen: Vec<u8> = Vec::new();
+                    loop {
+                        match cl.read(&mut buf).await {
+                            Ok(0) | Err(_) => break,
+                            Ok(k) => {
+                                seen.extend_from_slice(&buf[..k]);
+                                if seen.ends_with(b"\r\n\r\ndone") || seen.windows(8).any(|w| w == b"HTTP/1.1") && seen.ends_with(b"\r\n\r\n") {
+                                    break;
+                                }
+                            }
+                        }
+                    }
+                })
+                .await;
+            })
+        });
+        let main = sched::spawn("driver", false, move || {
+            Box::pin(async move {
+                for _ in 0..2000 {
+                    if sched::is_done(client) && sched::is_done(server) {
+                        break;
+                    }
+                    if sched::is_done(client) && WIRE.with(|w| w.borrow().outcome.is_some()) {
+                        break;
+                    }
+                    tokio::time::sleep(std::time::Duration::from_millis(500)).await;
+                }
+            })
+        });
+        sched::root(main).await;
+    });
+    let sim_ns;
+    let inner = {
+        let _g = rt.enter();
+        sim_ns = sched::now_ns();
+        sched::uninstall()
+    };
+    drop(rt);
+    crate::seams::clear_clock();
+    crate::seams::set_entropy(None);
+    *tape = inner.tape;
+    let mut out = RunOut::new(inner.log);
+    out.sim_ns = sim_ns;
+    if inner.overflow {
+        simcore::driver::harness_error("bodysim(wire): step cap exceeded");
+    }
+    let rec = WIRE.with(|w| std::mem::take(&mut *w.borrow_mut()));
+    let n = limit_usize(script.limit);
+    // Content-Length as the extractor sees and parses it
+    let header_len: Option<usize> = rec.seen_cl.as_ref().and_then(|v| v.parse::<usize>().ok());
+    let header_excess = header_len.is_some_and(|l| l > n);
+    let message_complete = rec.client_done && valid;
+    let outcome = rec.outcome.clone().unwrap_or(Outcome::NoResult);
+    let framing = match &script.framing {
+        Framing::Length => "length",
+        Framing::Chunked(_) => "chunked",
+    };
+    let sig = format!(
+        "wire {framing} cl={} body{}N complete={}",
+        match (&script.cl, header_len) {
+            (Cl::Absent, _) => "absent",
+            (_, None) => "unparsable",
+            (_, Some(l)) if l > n => ">N",
+            _ => "<=N",
+        },
+        if announced.len() > n { ">" } else { "<=" },
+        message_complete
+    );
+    out.log.ev(format_args!("limit={n} announced_body={} sent={}/{} complete={message_complete} outcome={}", announced.len(), rec.client_wrote, total, short(&outcome)));
+    match &outcome {
+        Outcome::Ok(b) => {
+            out.count("ok", 1);
+            if b.len() > n {
+                out.violations.push(viol("never-more-than-limit", sig.clone(), format!("extractor returned {} bytes with a limit of {n} bytes", b.len())));
+            }
+            if b.as_slice() != announced.as_slice() {
+                // a truncated or altered body handed to the application
+                out.violations.push(viol(
+                    if b.len() < announced.len() { "no-truncated-ok" } else { "byte-identical" },
+                    sig.clone(),
+                    format!("returned {} bytes, the request's body is {} bytes (client sent {}/{} bytes of the message)", b.len(), announced.len(), rec.client_wrote, total),
+                ));
+            } else if !message_complete && rec.client_wrote < total && matches!(script.framing, Framing::Chunked(_)) {
+                // body matched although the terminating chunk never arrived?
+                let need = msg_len - if matches!(&script.framing, Framing::Chunked(s) if s.len() % 2 == 1) { 17 } else { 2 };
+                if rec.client_wrote + 3 < need {
+                    out.violations.push(viol("no-truncated-ok", sig.clone(), "chunked body accepted before its terminating chunk was sent".into()));
+                }
+            }
+            if header_excess {
+                out.violations.push(viol("content-length-over-limit-rejected", sig.clone(), format!("Content-Length {header_len:?} > limit {n} but extraction succeeded")));
+            }
+            if b.len() <= n && b.as_slice() == announced.as_slice() {
+                let head = head_for(script, data.len());
+                check_typed(script, &head, b, &announced, &mut out);
+            }
+        }
+        Outcome::SizeLimit => {
+            out.count("size_limit_error", 1);
+            if !(header_excess || announced.len() > n) && !matches!(script.cl, Cl::Garbage(_)) {
+                out.violations.push(viol("fits-is-accepted", sig.clone(), format!("body of {} bytes, limit {n}, Content-Length {header_len:?}: rejected with a size-limit error although it fits", announced.len())));
+            }
+            if header_excess {
+                out.count("rejected_on_header", 1);
+            } else {
+                out.count("limit_hit_while_streaming", 1);
+            }
+        }
+        Outcome::Unexpected => {
+            out.count("transport_error_reported", 1);
+            if message_complete && rec.fault_fired.is_none() {
+                out.violations.push(viol("fits-is-accepted", sig.clone(), "unexpected-buffer error although the whole, well-formed request was delivered".into()));
+            }
+        }
+        Outcome::NoResult => {
+            out.count("no_result", 1);
+            if message_complete && rec.fault_fired.is_none() && rec.service_called {
+                out.violations.push(viol("extraction-completes", sig.clone(), format!("the whole request ({total} bytes) was delivered but the extraction never finished")));
+            }
+            if !rec.service_called {
+                out.count("rejected_before_service", 1);
+            }
+        }
+    }
+    // converse: a complete, well-formed request that fits must be accepted
+    if message_complete && rec.fault_fired.is_none() && rec.service_called && announced.len() <= n && !header_excess && !matches!(outcome, Outcome::Ok(_)) && !matches!(script.cl, Cl::Garbage(_)) {
+        if !out.violations.iter().any(|v| v.invariant == "fits-is-accepted" || v.invariant == "extraction-completes") {
+            out.violations.push(viol("fits-is-accepted", sig.clone(), format!("a complete request whose body ({} bytes) fits the limit ({n}) ended in {}", announced.len(), short(&outcome))));
+        }
+    }
+    if let Some(f) = rec.fault_fired {
+        out.count(f, 1);
+    }
+    match (&script.cl, header_len) {
+        (Cl::Absent, _) => out.count("cl_absent", 1),
+        (Cl::Garbage(_), _) => out.count("fault_cl_garbage", 1),
+        (_, Some(l)) if l != data.len() => out.count("fault_cl_lying", 1),
+        _ => out.count("cl_truthful", 1),
+    }
+    if rec.seen_te {
+        out.count("chunked_requests", 1);
+    }
+    for (k, v) in &inner.counters {
+        out.count(k, *v);
+    }
+    let rel = if announced.len() > n { "over" } else if announced.len() == n { "at" } else { "under" };
+    out.states.push(format!("A|{framing}|{rel}|{}|{}", short_kind(&outcome), rec.fault_fired.unwrap_or("nofault")));
+    out.nontrivial = script.fragments.len() > 1 || !matches!(script.cl, Cl::Truthful);
+    out
+}
+
+fn short_kind(o: &Outcome) -> &'static str {
+    match o {
+        Outcome::Ok(_) => "Ok",
+        Outcome::SizeLimit => "SizeLimit",
+        Outcome::Unexpected => "Unexpected",
+        Outcome::NoResult => "NoResult",
+    }
+}
+
 fn gen_limit(rng: &mut Rng) -> u64 {
     match rng.below(12) {
         0 => 0,
@@ -548,7 +907,7 @@ fn gen_limit(rng: &mut Rng) -> u64 {
         6 => rng.range(301, 5000),
         7 => 65_536,
         8 => 2_000_000,
-        9 => u64::MAX,
+        9 => *rng.pick(&[u64::MAX, 1 << 32, (1 << 32) + 5, u32::MAX as u64]),
         10 => u64::MAX - rng.below(3),
         _ => rng.range(1, 100_000),
     }
@@ -650,9 +1009,11 @@ impl Sim for BodySim {
     }
 
     fn generate(rng: &mut Rng, _tier: Tier, _p: &str) -> Script {
-        let wire = false;
-        let limit = gen_limit(rng);
-        let big_ok = rng.chance(1, 200);
+        let wire = rng.chance(1, 3);
+        // a tiny socket buffer costs one scheduling step per byte: keep those runs small
+        let wire_cap = *rng.pick(&[1usize, 3, 17, 64, 1024, 65_536, 65_536]);
+        let limit = if wire { gen_limit(rng).min(if wire_cap < 64 { 600 } else { 100_000 }) } else { gen_limit(rng) };
+        let big_ok = !wire && rng.chance(1, 200);
         let body_len = gen_body_len(rng, limit, big_ok);
         let cl = gen_cl(rng, body_len, limit);
         let payload = match rng.below(5) {
@@ -666,6 +1027,27 @@ impl Sim for BodySim {
             1 => Hint::Lying(*rng.pick(&[0, 1, u64::MAX, limit, limit.saturating_add(1)])),
             _ => Hint::Default,
         };
+        let (framing, fragments, pipe_capacity, fault) = if wire {
+            let framing = if rng.chance(1, 2) {
+                Framing::Length
+            } else {
+                let k = rng.usize(1, 6);
+                Framing::Chunked((0..k).map(|_| rng.usize(1, body_len.max(1))).collect())
+            };
+            let approx_total = body_len + 120 + 8 * 8;
+            let nfr = rng.usize(1, 8);
+            let fragments: Vec<(usize, u64)> = (0..nfr).map(|_| (rng.usize(1, approx_total.max(2)), *rng.pick(&[0u64, 0, 0, 1, 5, 40]))).collect();
+            let pipe_capacity = wire_cap;
+            let fault = match rng.below(8) {
+                0 => WireFault::HalfCloseAfter(rng.usize(0, approx_total)),
+                1 => WireFault::StallAfter(rng.usize(0, approx_total)),
+                2 => WireFault::ResetAfter(rng.usize(0, approx_total)),
+                _ => WireFault::None,
+            };
+            (framing, fragments, pipe_capacity, fault)
+        } else {
+            (Framing::Length, vec![], 0, WireFault::None)
+        };
         Script {
             wire,
             limit,
@@ -675,16 +1057,16 @@ impl Sim for BodySim {
             cl,
             frames,
             hint,
-            framing: Framing::Length,
-            fragments: vec![],
-            pipe_capacity: 0,
-            fault: WireFault::None,
+            framing,
+            fragments,
+            pipe_capacity,
+            fault,
             limit_disabled: false,
         }
     }
 
     fn run(script: &Script, tape: &mut Tape, keep_log: bool) -> RunOut {
-        run_frames(script, tape, keep_log)
+        if script.wire { run_wire(script, tape, keep_log) } else { run_frames(script, tape, keep_log) }
     }
 
     fn shrink(s: &Script) -> Vec<Script> {
@@ -713,6 +1095,28 @@ impl Sim for BodySim {
             let mut t = s.clone();
             t.limit -= 1;
             c.push(t);
+        }
+        if s.wire {
+            for i in 0..s.fragments.len() {
+                let mut t = s.clone();
+                t.fragments.remove(i);
+                c.push(t);
+            }
+            if s.fault != WireFault::None {
+                let mut t = s.clone();
+                t.fault = WireFault::None;
+                c.push(t);
+            }
+            if s.pipe_capacity != 65_536 {
+                let mut t = s.clone();
+                t.pipe_capacity = 65_536;
+                c.push(t);
+            }
+            if let Framing::Chunked(_) = s.framing {
+                let mut t = s.clone();
+                t.framing = Framing::Length;
+                c.push(t);
+            }
         }
         if s.payload != Payload::Random {
             let mut t = s.clone();
